@@ -218,6 +218,23 @@ func runC09(c *core.Ctx) {
 			}
 		}
 	})
+	// reference encodings of values of 64 KiB and more of every family (where the re-encoder's 16-bit
+	// size arithmetic is exercised), alone and followed by a small packet
+	c.Section("big-encodings", c.N(240, 5000), func(cs *core.Case) {
+		r := cs.R
+		v := gen.BigPacket(r)
+		e, err := ref.Encode(v, ref.Lib)
+		if err != nil || len(e.B) > 262144 {
+			return
+		}
+		in := e.B
+		if r.Bool() {
+			in = append(cloneBytes(in), 0x81, 203, 0, 1, 1, 2, 3, 4)
+		}
+		if c09Judge(cs, in) {
+			cs.Count("big-encodings/" + gen.KindOf(v).String())
+		}
+	})
 	c.KnownWitness("KF3", func() (bool, string) {
 		b := []byte{0x8F, 206, 0, 4, 0, 0, 0, 1, 0, 0, 0, 0, 'R', 'E', 'M', 'B', 0, 60 << 2, 0, 0}
 		ps, err := rtcp.Unmarshal(b)
